@@ -1,0 +1,26 @@
+//go:build verif
+
+// Package verifhook provides named hook points for the runtime-verification harness. With the
+// "verif" build tag a handler can be installed per name; without the tag Point is an empty function.
+package verifhook
+
+import "sync"
+
+var handlers sync.Map // name -> func(arg string)
+
+// Set installs the handler for a named hook point, replacing any previous one.
+func Set(name string, f func(arg string)) {
+	handlers.Store(name, f)
+}
+
+// Clear removes the handler for a named hook point.
+func Clear(name string) {
+	handlers.Delete(name)
+}
+
+// Point invokes the handler installed for name, if any, on the calling goroutine.
+func Point(name string, arg string) {
+	if f, ok := handlers.Load(name); ok {
+		f.(func(string))(arg)
+	}
+}
